@@ -156,6 +156,9 @@ func (B *Bound) buildContract(fn *ssa.Function) *contract {
 					d = "n <= len(" + p.Name() + ")"
 				}
 				cands = append(cands, symIneq{terms: []symTerm{{slotLenParam, pi, 1}, {slotResult, r, -1}}, desc: d})
+				if r == 0 && isByteSlice(p.Type()) {
+					cands = append(cands, symIneq{terms: []symTerm{{slotResult, r, 1}, {slotLenParam, pi, -1}}, desc: "n >= len(" + p.Name() + ")"})
+				}
 			}
 			if b, ok := p.Type().Underlying().(*types.Basic); ok && b.Kind() == types.Int {
 				cands = append(cands, symIneq{terms: []symTerm{{slotResult, r, 1}, {slotParam, pi, -1}}, desc: fmt.Sprintf("%s >= %s", rn, p.Name())})
